@@ -1039,6 +1039,275 @@ def run(ctx: Context):
         r.require(len(adv) >= 1 and all(isinstance(n.op, ast.Add) for n in adv), re_, re_.loc(),
                   "_read_encrypted no longer advances self._offset")
 
+    # -- 9. keystream continuity on the client ------------------------------
+    with ctx.rule("C44.9", "R10/R6", "every plaintext chunk the client consumes runs through the one stateful AES-CTR "
+                  "encryptor whether or not hash_only is set (the flag decides only what is returned); the read chain "
+                  "down to the encryptor is not control-dependent on hash_only; the encryptor is created once",
+                  expected=7) as r:
+        eau = idx.cls(UP + ":EncryptAnUploadable")
+        he = idx.func(UP + ":EncryptAnUploadable._hash_and_encrypt_plaintext")
+        hp = first_positional_params(he)
+        if len(hp) < 2:
+            raise AnchorVanished("_hash_and_encrypt_plaintext(data, hash_only) parameters")
+        data_p, flag = hp[0], hp[1]
+        hcfg = he.cfg()
+        hnorm = FlowNorm(he)
+        encs = []
+        for n in hcfg.nodes:
+            for c in node_calls(n):
+                if call_tail(c) == "encrypt_data" and len(c.args) == 2 and hnorm.norm(n, c.args[0]) == "self._encryptor":
+                    encs.append((n, c))
+        if not encs:
+            raise AnchorVanished("_hash_and_encrypt_plaintext no longer feeds self._encryptor (aes.encrypt_data(self._encryptor, ..))")
+        enc_nodes = [n for (n, _c) in encs]
+        is_enc = lambda n: any(n is m for m in enc_nodes)
+        chunk_vars = set()
+        for (n, c) in encs:
+            r.site(he, c, "keystream advance")
+            dep = depends_on(he, c.args[1])
+            r.require(data_p in dep, he, he.loc(c), "the encryptor is fed %s, which is not the plaintext handed to "
+                      "_hash_and_encrypt_plaintext" % src(he, c.args[1]))
+            chunk_vars |= {l for l in leaves(c.args[1]) if "." not in l and l != data_p}
+        # E1: with hash_only set the encryptor must still be reachable
+        def hv_only(n, lab, nxt, st):
+            if lab == "exc":
+                return None
+            if flag in node_stores(n):
+                st = "?"
+            v = _flag_on_edge(hnorm, n, lab, flag)
+            if v is not None:
+                if st != "?" and st != v:
+                    return None
+                st = v
+            return st
+        visited, _parent = explore(hcfg, "?", hv_only)
+        r.count(len(visited))
+        if not any(is_enc(hcfg.nodes[nid]) and st != "F" for (nid, st) in visited):
+            n0, c0 = encs[0]
+            r.violation(he, he.loc(c0), "aes.encrypt_data(self._encryptor, ..) runs only when %s is false: bytes skipped "
+                        "with hash_only=True (resume at offset > 0) do not advance the AES-CTR keystream, so the ciphertext "
+                        "served after the skip is encrypted from the wrong counter" % flag)
+        # E2: per consumed chunk
+        def takes_chunk(n):
+            if n.kind == "iter":
+                return bool(chunk_vars & node_stores(n))
+            return n.kind == "stmt" and isinstance(n.ast, (ast.Assign, ast.AnnAssign)) and bool(chunk_vars & node_stores(n))
+        takers = hcfg.find(takes_chunk)
+        if chunk_vars and not takers:
+            raise AnchorVanished("_hash_and_encrypt_plaintext: where the chunk given to the encryptor is taken from the data")
+        for n in takers:
+            r.site(he, n.ast, "chunk taken")
+        bad, nst = _flag_dependent_skips(he, flag, takes_chunk if takers else None, is_enc)
+        r.count(nst)
+        for (n, w) in bad:
+            r.violation(he, he.loc(n.ast), "a plaintext chunk is consumed without going through self._encryptor when %s is set "
+                        "(path: %s): the AES-CTR keystream falls behind the file offset and a resumed transfer gets "
+                        "wrong ciphertext" % (flag, w.brief()), w)
+        # the read chain above the encryptor
+        reu = idx.func(UP + ":RemoteEncryptedUploadable._read_encrypted")
+        chain = [(idx.func(UP + ":EncryptAnUploadable._read_encrypted"), "self._hash_and_encrypt_plaintext", "hash and encrypt"),
+                 (idx.func(UP + ":EncryptAnUploadable._read_encrypted"), "self.original.read", "plaintext read"),
+                 (idx.func(UP + ":EncryptAnUploadable.read_encrypted"), "self._read_encrypted", "chunked read loop"),
+                 (reu, "self._eu.read_encrypted", "read through the encrypting wrapper")]
+        for (top, callee, what) in chain:
+            tp = first_positional_params(top)
+            if len(tp) < 2:
+                raise AnchorVanished("%s(length, hash_only) parameters" % top.qual)
+            tflag = tp[1]
+            found = _find_calls(idx, top, callee)
+            if not found:
+                raise AnchorVanished("%s no longer calls %s" % (top.qual, callee))
+            for (g, c) in found:
+                r.site(g, c, what)
+                level, gate = g, (lambda n, _c=c: any(x is _c for x in node_calls(n)))
+                while True:
+                    bad, nst = _flag_dependent_skips(level, tflag, None, gate)
+                    r.count(nst)
+                    for (n, w) in bad:
+                        r.violation(level, level.loc(n.ast), "%s (%s) is skipped when %s is set (path: %s): skipped bytes must be "
+                                    "read, hashed and encrypted like served ones or the keystream position is lost"
+                                    % (callee, what, tflag, w.brief()), w)
+                    if level is top or level.parent is None:
+                        break
+                    gate = _mentions(level)
+                    level = level.parent
+        # one encryptor per upload
+        ge = idx.func(UP + ":EncryptAnUploadable._get_encryptor")
+        gcfg = ge.cfg()
+        gnorm = FlowNorm(ge)
+        fresh = gcfg.find(has_call("get_encryption_key"))
+        if not fresh:
+            raise AnchorVanished("_get_encryptor no longer asks for the encryption key")
+        have_none = lambda n, lab: gnorm.edge_fact(n, lab) in (("false", "self._encryptor", None), ("is", "self._encryptor", "None"),
+                                                              ("is", "None", "self._encryptor"), ("==", "self._encryptor", "None"))
+        for n in fresh:
+            r.site(ge, n.ast, "encryptor creation")
+        for (n, w) in find_path_avoiding(gcfg, lambda x: any(x is m for m in fresh), gate_edge=have_none, kill=stores("self._encryptor")):
+            r.violation(ge, ge.loc(n.ast), "_get_encryptor makes a new encryptor although one may exist (path: %s): every "
+                        "read_encrypted call would restart the AES-CTR keystream at 0, so the ciphertext depends on the read "
+                        "sizes, which differ between the helper's fetch and a direct upload" % w.brief(), w)
+        n_store = 0
+        for c in eau.mro():
+            for m in c.methods.values():
+                for x in ast.walk(m.node):
+                    if isinstance(x, ast.Attribute) and isinstance(x.ctx, (ast.Store, ast.Del)) and attr_path(x) == "self._encryptor":
+                        n_store += 1
+                        inner = _innermost(m, x)
+                        if inner.name == "__init__" or (inner.parent is not None and inner.parent.qual == ge.qual):
+                            continue
+                        raise AnalysisError("%s repositions self._encryptor: keystream continuity is not decided for this design"
+                                            % inner.qual)
+        if n_store < 2:
+            raise AnchorVanished("stores of self._encryptor in EncryptAnUploadable")
+
+    # -- 10. a failed transfer is reported and deregistered ------------------
+    with ctx.rule("C44.10", "E7/R4", "a failure of the ciphertext transfer reaches the fetcher's and the upload helper's "
+                  "errbacks, which notify their observers and call Helper.upload_finished on every path before anything "
+                  "that can raise in the not-yet-encoding state; upload_finished drops the storage index from "
+                  "_active_uploads (else the resumed upload is handed the dead upload helper)", expected=8) as r:
+        uh = idx.cls(UH)
+        init = idx.func(UH + ".__init__")
+        comp = _components(idx, init)
+        # (a) the upload helper's chain ends in an error handler
+        regs = _regs(init)
+        fin_i = [i for i, x in enumerate(regs) if x.target_name() == "self._finished"]
+        if len(fin_i) != 1:
+            raise AnchorVanished("CHKUploadHelper.__init__: registration of self._finished")
+        dvn = regs[fin_i[0]].recv
+        chain = [x for x in regs if x.recv == dvn]
+        k = [i for i, x in enumerate(chain) if x.target_name() == "self._finished"][0]
+        tail = [(x, _err_target(x)) for x in chain[k:] if _err_target(x) is not None and not (x is chain[k] and x.kind != "pair")]
+        r.site(init, chain[k].call, "upload helper chain tail %s" % chain[k:])
+        handler = None
+        if r.require(bool(tail), init, init.loc(chain[k].call), "no errback after _finished on the upload helper's chain: a failed "
+                     "fetch or encode is neither reported to the client nor removed from Helper._active_uploads"):
+            handler = _cb_func(idx, init, tail[-1][1])
+            if handler is None or handler.cls is None or uh not in handler.cls.mro() and handler.cls not in uh.mro():
+                r.violation(init, init.loc(tail[-1][0].call), "failures of the upload helper's chain go to %s, which is not a "
+                            "method of the upload helper: the failed upload is never removed from Helper._active_uploads"
+                            % tail[-1][0].target_name())
+                handler = None
+        # (b) the two terminal handlers of the upload helper
+        fin = idx.func(UH + "._finished")
+        terminals = [(fin, False)] + ([(handler, True)] if handler is not None else [])
+        for (h, failing) in terminals:
+            hn = FlowNorm(h)
+            fire = lambda n: any(call_name(c) == "self._finished_observers.fire" and len(c.args) == 1 for c in node_calls(n))
+
+            def dereg(n, _hn=hn):
+                for c in node_calls(n):
+                    if call_name(c) == "self._helper.upload_finished" and c.args \
+                            and _hn.norm(n, c.args[0]) == "self._storage_index":
+                        return True
+                return False
+            r.site(h, None, "terminal handler (%s)" % ("failure" if failing else "success"))
+            obligations = [(fire, "notifying the waiting client (self._finished_observers.fire)"),
+                           (dereg, "deregistering the upload (self._helper.upload_finished(self._storage_index, ..))")]
+            _check_handler(r, idx, h, obligations, comp if failing else None, init)
+            if failing:
+                p0 = first_positional_params(h)[0]
+                for n in h.cfg().find(fire):
+                    for c in node_calls(n):
+                        if call_name(c) == "self._finished_observers.fire":
+                            r.require(hn.norm(n, c.args[0]) == p0, h, h.loc(c), "the client is told %s, not the failure"
+                                      % src(h, c.args[0]))
+        # (c) Helper.upload_finished removes the entry, under the key it was registered with
+        uf = idx.func(HELPER + ".upload_finished")
+        si_p = first_positional_params(uf)[0]
+        ufn = FlowNorm(uf)
+
+        def drops(n):
+            a = n.ast
+            if n.kind == "stmt" and isinstance(a, ast.Delete):
+                for t in a.targets:
+                    if isinstance(t, ast.Subscript) and attr_path(t.value) == "self._active_uploads" \
+                            and ufn.norm(n, t.slice) == si_p:
+                        return True
+            for c in node_calls(n):
+                if call_name(c) == "self._active_uploads.pop" and c.args and ufn.norm(n, c.args[0]) == si_p:
+                    return True
+            return False
+        r.site(uf, None, "deregistration")
+        ws = find_path_avoiding(uf.cfg(), lambda n: n.kind == "exit", gate_node=drops, skip_exc_edges=True)
+        for (n, w) in ws[:1]:
+            r.violation(uf, uf.loc(), "Helper.upload_finished can return without removing the storage index from "
+                        "_active_uploads (path: %s): the next upload of this file is handed the finished upload helper and "
+                        "never completes" % w.brief(), w)
+        dc = idx.func(HELPER + "._did_chk_check")
+        dn = FlowNorm(dc)
+        n_reg = 0
+        for n in dc.cfg().find(stores("self._active_uploads[]")):
+            a = n.ast
+            if not (isinstance(a, ast.Assign) and len(a.targets) == 1 and isinstance(a.targets[0], ast.Subscript)):
+                continue
+            n_reg += 1
+            r.site(dc, a, "registration")
+            key = dn.norm(n, a.targets[0].slice)
+            v = dn.resolve(n, a.value)
+            ok = isinstance(v, ast.Call) and call_tail(v) == "_make_chk_upload_helper" and v.args \
+                and norm_plain(v.args[0]) == key
+            r.require(ok, dc, dc.loc(a), "the upload helper is registered under %s but made for %s: upload_finished(its storage "
+                      "index) would not remove it" % (key, src(dc, v.args[0]) if isinstance(v, ast.Call) and v.args else src(dc, a.value)))
+        if n_reg == 0:
+            raise AnchorVanished("_did_chk_check no longer registers the upload helper in _active_uploads")
+        # (d) the fetcher: failures reach _failed, which tells the upload helper
+        start = idx.func(FETCH + "._start")
+        sregs = _regs(start)
+        dvars = {x.recv for x in sregs if x.recv}
+        if len(dvars) != 1:
+            raise AnchorVanished("the chain Deferred of _start is not a single variable: %s" % sorted(dvars))
+        dv = dvars.pop()
+        scfg = start.cfg()
+        ebs = [x for x in sregs if x.recv == dv and x.kind in ("eb", "both")]
+        r.site(start, None, "fetch chain error handlers %s" % ebs)
+        fhandler = None
+        if r.require(bool(ebs), start, start.loc(), "the fetch chain has no errback: when the client goes away the upload helper "
+                     "never learns that the fetch failed and stays in Helper._active_uploads"):
+            last = ebs[-1]
+            fhandler = _cb_func(idx, start, last.target)
+            is_eb = lambda n: any(c is last.call for c in node_calls(n))
+            for (n, w) in find_path_from_to_avoiding(scfg, lambda n: n.kind == "stmt" and dv in node_stores(n), is_eb):
+                r.violation(start, start.loc(n.ast), "a fetch chain started here gets no errback (path: %s)" % w.brief(), w)
+            d2 = [x for x in sregs if x.recv == dv and x.target_name() == "self._done2"]
+            r.require(all(sregs.index(x) < sregs.index(last) for x in d2), start, start.loc(last.call),
+                      "the errback is registered before _done2: a failure inside the completion steps is not reported")
+            if fhandler is None:
+                raise AnchorVanished("the fetch chain's errback %s is not resolvable" % last.target_name())
+        if fhandler is not None:
+            r.site(fhandler, None, "fetcher failure handler")
+            p0 = first_positional_params(fhandler)[0]
+            fhn = FlowNorm(fhandler)
+
+            def tells(n, _hn=fhn, _p=p0):
+                return any(call_name(c) == "self._done_observers.fire" and len(c.args) == 1 and _hn.norm(n, c.args[0]) == _p
+                           for c in node_calls(n))
+            _check_handler(r, idx, fhandler, [(tells, "passing the failure to the upload helper (self._done_observers.fire(%s))" % p0)],
+                           {}, idx.func(FETCH + ".__init__"))
+        # (e) _loop: a failed _fetch fails the Deferred that _start_reading returned
+        lp = idx.func(FETCH + "._loop")
+        fire_p = first_positional_params(lp)[0]
+        ldv = {attr_path(t) for n in _own(lp) if isinstance(n, ast.Assign)
+               and any(attr_path(x) == "self._fetch" for x in own_nodes(n.value)) for t in n.targets}
+        ldv.discard(None)
+        lregs = [x for x in _regs(lp) if x.recv in ldv]
+        lerr = [(x, _err_target(x)) for x in lregs if _err_target(x) is not None]
+        r.site(lp, None, "loop error link %s" % [x for (x, _t) in lerr])
+        if r.require(bool(lerr), lp, lp.loc(), "_loop has no errback on the Deferred of _fetch: a lost client leaves the fetch "
+                     "Deferred unfired for ever"):
+            ef = _cb_func(idx, lp, lerr[0][1])
+            if ef is None:
+                raise AnchorVanished("_loop's errback is not resolvable")
+            ep = first_positional_params(ef)[0]
+            efn = FlowNorm(ef)
+
+            def fails(n):
+                return any(call_name(c) == fire_p + ".errback" and len(c.args) == 1 and efn.norm(n, c.args[0]) == ep
+                           for c in node_calls(n))
+            ws = find_path_avoiding(ef.cfg(), lambda n: n.kind == "exit", gate_node=fails, skip_exc_edges=True)
+            for (n, w) in ws[:1]:
+                r.violation(ef, ef.loc(), "_loop's errback can return without failing %s (path: %s): the Deferred that "
+                            "_start_reading returned never fires and the failed fetch is never reported" % (fire_p, w.brief()), w)
+
 
 # ------------------------------------------------------------ shared pieces
 def _data_callback(idx, fetch):
@@ -1120,3 +1389,311 @@ def _names_var(fnorm, n, lab, var):
     if op == "is not":
         return {l, rr} == {var, "None"}
     return False
+
+
+# ------------------------------------------------------ C44.9 / C44.10 pieces
+def _flag_on_edge(fnorm, n, lab, flag):
+    """'T' / 'F' when the edge (n, lab) is taken only with the boolean `flag` truthy / falsy, else None."""
+    f = fnorm.edge_fact(n, lab)
+    if not f:
+        return None
+    op, l, rr = f
+    if l == flag and op in ("truth", "false"):
+        return "T" if op == "truth" else "F"
+    if op in ("is", "==", "is not", "!=") and flag in (l, rr):
+        other = rr if l == flag else l
+        if other in ("True", "False"):
+            v = other == "True"
+            if op in ("is not", "!="):
+                v = not v
+            return "T" if v else "F"
+    return None
+
+
+def _is_real(n):
+    return n.kind in ("stmt", "test", "iter", "with", "except") and not (n.kind == "stmt" and isinstance(n.ast, ast.Pass))
+
+
+def _flag_dependent_skips(fn, flag, is_start, is_gate):
+    """Obligation monitor for 'the gate happens whatever the boolean `flag` is'.
+
+    An obligation is open from function entry (is_start None) or from the moment a node satisfying is_start
+    is left; leaving a node satisfying is_gate discharges it.  An end point is reached when the obligation is
+    still open on arrival at the normal exit or at the next is_start node; it is identified by the last
+    statement executed before it.  Reported: end points reached with `flag` learned truthy (since the
+    obligation opened) that are not also reached, open, with the flag falsy or untested - i.e. places where
+    skipping the gate is control-dependent on the flag.  Returns ([(node, Witness)], number of states)."""
+    cfg = fn.cfg()
+    fnorm = FlowNorm(fn)
+    ends = {"T": {}, "F": {}, "?": {}}
+
+    def transfer(n, lab, nxt, st):
+        if lab == "exc":
+            return None
+        opened, hv, last = st
+        if is_start is not None and is_start(n) and (n.kind != "iter" or lab == "iter"):
+            opened, hv = True, "?"
+        if flag in node_stores(n):
+            hv = "?"
+        v = _flag_on_edge(fnorm, n, lab, flag)
+        if v is not None:
+            if hv != "?" and hv != v:
+                return None
+            hv = v
+        if is_gate(n):
+            opened = False
+        if _is_real(n):
+            last = n.id
+        ns = (opened, hv, last)
+        if opened and (nxt.kind == "exit" or (is_start is not None and is_start(nxt))):
+            ends[hv].setdefault(last, (nxt.id, ns))
+        return ns
+    visited, parent = explore(cfg, (is_start is None, "?", None), transfer)
+    out = []
+    for last, pst in sorted(ends["T"].items(), key=lambda kv: (kv[0] is None, kv[0] or 0)):
+        if last in ends["F"] or last in ends["?"]:
+            continue
+        node = cfg.nodes[last] if last is not None else cfg.entry
+        out.append((node, witness(cfg, parent, pst)))
+    return out, len(visited)
+
+
+def _sub_funcs(idx, fn):
+    """Nested defs and lambdas directly inside fn."""
+    out = [g for g in fn.nested.values() if isinstance(g.node, (ast.FunctionDef, ast.AsyncFunctionDef))]
+    for n in _own(fn):
+        if isinstance(n, ast.Lambda) and n is not fn.node:
+            out.append(idx.lambda_func(fn, n))
+    return out
+
+
+def _find_calls(idx, fn, name, depth=4):
+    """[(innermost function, call)] for calls with dotted callee `name` in fn or (recursively) its nested defs / lambdas."""
+    out = [(fn, c) for c in _calls(fn) if call_name(c) == name
+           or (call_tail(c) == "maybeDeferred" and c.args and attr_path(c.args[0]) == name)]
+    if depth > 0:
+        for g in _sub_funcs(idx, fn):
+            out += _find_calls(idx, g, name, depth - 1)
+    return out
+
+
+def _mentions(g):
+    """Node predicate (for the CFG of g's parent): the node uses the nested function / lambda g as a value."""
+    def p(n):
+        if n.kind == "stmt" and isinstance(n.ast, (ast.FunctionDef, ast.AsyncFunctionDef, ast.ClassDef)):
+            return False
+        for e in node_exprs(n):
+            for x in own_nodes(e, into_lambda=True):
+                if x is g.node:
+                    return True
+                if isinstance(x, ast.Name) and isinstance(x.ctx, ast.Load) and x.id == g.name \
+                        and not isinstance(g.node, ast.Lambda):
+                    return True
+        return False
+    return p
+
+
+def _innermost(fn, node):
+    """The innermost def nested in fn that contains `node` (fn itself when none does)."""
+    for g in fn.nested.values():
+        if isinstance(g.node, (ast.FunctionDef, ast.AsyncFunctionDef)) and any(x is node for x in ast.walk(g.node)):
+            return _innermost(g, node)
+    return fn
+
+
+def _err_target(x):
+    """AST of the callable that a registration runs on failure (None for a plain callback)."""
+    if x.kind in ("eb", "both"):
+        return x.target
+    if x.kind == "pair":
+        return x.errtarget
+    return None
+
+
+def _components(idx, init):
+    """attribute -> ClassInfo for `self.attr = Class(..)` in a constructor (classes of the same module)."""
+    out = {}
+    for n in _own(init):
+        if isinstance(n, ast.Assign) and isinstance(n.value, ast.Call) and isinstance(n.value.func, ast.Name):
+            q = "%s:%s" % (init.module.name, n.value.func.id)
+            ci = idx.classes.get(q)
+            if ci is None:
+                continue
+            for t in n.targets:
+                p = attr_path(t)
+                if p and p.startswith("self.") and p.count(".") == 1:
+                    out[p[5:]] = ci
+    return out
+
+
+_ATTR_TABLES = {}
+
+
+def _attr_table(ci):
+    """Instance attributes of class ci: (always, nullable, late) where `always` are set to a value by a constructor
+    of the mro (or provided by a class body), `nullable` are set to None by the constructors and to something else
+    by other methods, `late` = {attr: [methods]} are only ever set by non-constructor methods."""
+    if ci.qual in _ATTR_TABLES:
+        return _ATTR_TABLES[ci.qual]
+    always, none_init, later = set(), set(), {}
+    for c in ci.mro():
+        always |= set(c.attrs) | set(c.methods)
+        for m in c.methods.values():
+            values = {}
+            for st in ast.walk(m.node):
+                if isinstance(st, ast.Assign):
+                    for t in st.targets:
+                        values[id(t)] = st.value
+                elif isinstance(st, ast.AnnAssign) and st.value is not None:
+                    values[id(st.target)] = st.value
+            for x in ast.walk(m.node):
+                if not (isinstance(x, ast.Attribute) and isinstance(x.ctx, ast.Store) and isinstance(x.value, ast.Name)
+                        and x.value.id == "self"):
+                    continue
+                if m.name == "__init__" and _innermost(m, x) is m:
+                    v = values.get(id(x))
+                    if isinstance(v, ast.Constant) and v.value is None:
+                        none_init.add(x.attr)
+                    else:
+                        always.add(x.attr)
+                else:
+                    later.setdefault(x.attr, set()).add(_innermost(m, x).qual.split(":", 1)[1])
+    nullable = {a for a in none_init if a not in always and a in later}
+    late = {a: sorted(ms) for a, ms in later.items() if a not in always and a not in none_init}
+    _ATTR_TABLES[ci.qual] = (always, nullable, late)
+    return _ATTR_TABLES[ci.qual]
+
+
+def _self_attr_uses(fn_node_iter):
+    """(attribute, deref?) for loads of self.<attr> among the given AST nodes; deref = something is taken from
+    the attribute's value (self.a.b), which fails when the value is None."""
+    nodes = list(fn_node_iter)
+    inner = {id(x.value) for x in nodes if isinstance(x, ast.Attribute)}
+    for x in nodes:
+        if isinstance(x, ast.Attribute) and isinstance(x.ctx, ast.Load) and isinstance(x.value, ast.Name) and x.value.id == "self":
+            yield x, x.attr, id(x) in inner
+
+
+def _method_needs(ci, m, seen=None):
+    """Late / nullable attributes of ci that calling method m reads without a test of its own:
+    {attr: reason}.  Follows self.method() calls inside the class."""
+    seen = seen if seen is not None else set()
+    if m.qual in seen:
+        return {}
+    seen.add(m.qual)
+    always, nullable, late = _attr_table(ci)
+    out = {}
+    tested = set()
+    fnorm = FlowNorm(m)
+    cfg = m.cfg()
+    for n in cfg.nodes:
+        for (_d, lab) in cfg.succ[n.id]:
+            f = fnorm.edge_fact(n, lab)
+            if f and f[1] and f[1].startswith("self."):
+                tested.add(f[1][5:])
+    if any(isinstance(x, ast.Call) and call_name(x) in ("hasattr", "getattr") for x in _own(m)):
+        return {}
+    for (x, a, deref) in _self_attr_uses(_own(m)):
+        if a in late and a not in tested:
+            out.setdefault(a, "%s.%s reads self.%s, which only %s sets" % (ci.name, m.name, a, ", ".join(late[a])))
+        elif a in nullable and deref and a not in tested:
+            out.setdefault(a, "%s.%s uses self.%s, which is None until %s" % (ci.name, m.name, a, ", ".join(sorted(_attr_table(ci)[2].get(a, [])) or ["a later stage"])))
+    for c in _calls(m):
+        if isinstance(c.func, ast.Attribute) and isinstance(c.func.value, ast.Name) and c.func.value.id == "self":
+            m2 = ci.lookup(c.func.attr)
+            if m2 is not None:
+                for a, why in _method_needs(ci, m2, seen).items():
+                    out.setdefault(a, why)
+    return out
+
+
+MUST_EXIST = {"os.unlink", "os.remove", "os.stat", "os.rename", "os.replace", "os.rmdir", "os.listdir", "os.path.getsize",
+              "os.path.getmtime", "os.lstat", "os.chmod", "os.utime"}
+
+
+def _risks_at(idx, h, n, comp, started_sync):
+    """Things evaluated at CFG node n of handler h that raise when the transfer failed before the later stages ran:
+    [(message, guard)] where guard is a normal-form expression whose truth makes the use safe (or None)."""
+    out = []
+    k0 = h.cls
+    always, nullable, late = _attr_table(k0) if k0 is not None else (set(), set(), {})
+    fnorm = FlowNorm(h)
+    nodes = []
+    for e in node_exprs(n):
+        nodes += list(own_nodes(e))
+    callee = {id(x.func): x for x in nodes if isinstance(x, ast.Call)}
+    for (x, a, deref) in _self_attr_uses(nodes):
+        if a in late:
+            out.append(("self.%s does not exist yet (only %s sets it)" % (a, ", ".join(late[a])), None))
+        elif a in nullable and deref:
+            out.append(("self.%s may still be None" % a, "self." + a))
+    if comp:
+        for x in nodes:
+            if not (isinstance(x, ast.Attribute) and isinstance(x.ctx, ast.Load)):
+                continue
+            p = attr_path(x)
+            parts = p.split(".") if p else []
+            if len(parts) != 3 or parts[0] != "self" or parts[1] not in comp:
+                continue
+            ci = comp[parts[1]]
+            c_always, c_nullable, c_late = _attr_table(ci)
+            if id(x) in callee:
+                m = ci.lookup(parts[2])
+                if m is None:
+                    continue
+                for a, why in sorted(_method_needs(ci, m).items()):
+                    setters = set(c_late.get(a, []))
+                    if setters and setters <= started_sync.get(parts[1], set()):
+                        continue
+                    out.append(("%s() raises here: %s" % (p, why), None))
+            elif parts[2] in c_late:
+                out.append(("%s does not exist yet (only %s sets it)" % (p, ", ".join(c_late[parts[2]])), None))
+    for x in nodes:
+        if isinstance(x, ast.Call) and call_name(x) in MUST_EXIST and x.args:
+            a0 = fnorm.norm(n, x.args[0])
+            out.append(("%s(%s) raises when the file is not there" % (call_name(x), a0), "os.path.exists(%s)" % a0))
+    return out
+
+
+def _check_handler(r, idx, h, obligations, comp, init):
+    """h is a terminal callback/errback.  Every normal path through it performs each obligation
+    [(node predicate, description)]; when comp is not None (failure handler) nothing that can raise in the
+    early-failure state is evaluated, outside a try, before an obligation that is still due."""
+    cfg = h.cfg()
+    fnorm = FlowNorm(h)
+    for (pred, what) in obligations:
+        ws = find_path_avoiding(cfg, lambda n: n.kind == "exit", gate_node=pred, skip_exc_edges=True)
+        for (n, w) in ws[:1]:
+            r.violation(h, h.loc(), "%s can finish without %s (path: %s): the upload stays in Helper._active_uploads / its "
+                        "client is never answered, and a resumed upload of the same file never completes"
+                        % (short(h), what, w.brief()), w)
+    if comp is None:
+        return
+    started_sync = {}
+    for c in _calls(init):
+        p = call_name(c).split(".")
+        if len(p) == 3 and p[0] == "self" and p[1] in comp:
+            m = comp[p[1]].lookup(p[2])
+            if m is not None:
+                started_sync.setdefault(p[1], set()).add(m.qual.split(":", 1)[1])
+    n_states = 0
+    for n in cfg.nodes:
+        if n.kind not in ("stmt", "test", "iter", "with"):
+            continue
+        if any(lab == "exc" and cfg.nodes[d].kind == "except" for (d, lab) in cfg.succ[n.id]):
+            continue        # inside a try with a handler
+        for (msg, guard) in _risks_at(idx, h, n, comp, started_sync):
+            def guard_edge(m, lab, _g=guard):
+                if _g is None:
+                    return False
+                f = fnorm.edge_fact(m, lab)
+                return bool(f) and ((f[0] == "truth" and f[1] == _g) or (f[0] in ("is not", "!=") and {f[1], f[2]} == {_g, "None"}))
+            for (pred, what) in obligations:
+                ws = find_path_avoiding(cfg, lambda x, _n=n: x is _n, gate_node=pred, gate_edge=guard_edge, skip_exc_edges=True)
+                n_states += 1
+                if ws:
+                    r.violation(h, h.loc(n.ast), "%s: %s, before %s (path: %s); when the transfer fails during the ciphertext "
+                                "fetch the handler dies here and the failed upload is never reported or deregistered"
+                                % (short(h), msg, what, ws[0][1].brief()), ws[0][1])
+                    break
+    r.count(n_states)
